@@ -137,6 +137,35 @@ theorem size_dotCt {env : Env} {dst m : Ct} {as bs : List Ct} (h : dotCt env dst
                 · cases h
               · cases h
 
+theorem size_mulManyRec {env : Env} : ∀ (fuel : Nat) {dst m : Ct} {ins : List Ct}, mulManyRec env fuel dst ins = .ok m → m.size = dst.size
+  | 0, _, _, _, h => by simp [mulManyRec] at h
+  | fuel + 1, dst, m, ins, h => by
+    unfold mulManyRec at h
+    match ins, h with
+    | [], h => cases h
+    | [x], h => exact size_shiftInto h
+    | [x, y], h =>
+      simp only at h
+      split at h
+      · exact size_mulInto h
+      · cases h
+    | a :: b :: c :: rest, h =>
+      simp only at h
+      split at h
+      · unfold mulTree at h
+        simp only at h
+        split at h
+        · cases h
+        · cases h
+        · split at h
+          · cases h
+          · cases h
+          · exact size_mulInto h
+      · cases h
+
+theorem size_mulMany {env : Env} {dst m : Ct} {ins : List Ct} (h : mulMany env dst ins = .ok m) : m.size = dst.size :=
+  size_mulManyRec _ h
+
 theorem withPt_size {env : Env} {pt : Pt} {dst m : Ct} {f : Res Ct} (hf : ∀ m, f = .ok m → m.size = dst.size)
     (h : withPt env pt dst f = .ok m) : m.size = dst.size := hf m (withPt_ok2 h).2
 
@@ -258,6 +287,9 @@ theorem stepR_sizes {env : Env} {P P' : Pool} (op : XOp) (h : stepR env P op.toO
   | addMany d as =>
     obtain ⟨cd, cs, m, hd, _, hf, rfl⟩ := opN_ok' (show opN _ d as (addMany env) = .ok P' from h)
     exact sizes_set hd (size_addMany hf)
+  | mulMany d as =>
+    obtain ⟨cd, cs, m, hd, _, hf, rfl⟩ := opN_ok' (show opN _ d as (mulMany env) = .ok P' from h)
+    exact sizes_set hd (size_mulMany hf)
   | dotCt d as bs =>
     obtain ⟨cd, cs, ds, m, hd, _, _, hf, rfl⟩ := opNN_ok' (show opNN _ d as bs (dotCt env) = .ok P' from h)
     exact sizes_set hd (size_dotCt hf)
